@@ -159,6 +159,70 @@ fn case(run: usize, scn: &Value) -> Value {
            "ring_a": rings[0], "ring_b": rings[1], "ring_big": rings[2], "keys": kj, "routes": routes})
 }
 
+/// Membership that changes while the cluster runs: one shared ring (constructed from the initial members), one router per
+/// member; a join is `add_node` on the ring plus `update_peer` on every router plus a router for the newcomer, a leave is
+/// `remove_node` plus `remove_peer` everywhere.  After every change each member routes a batch; the case carries one epoch per
+/// membership: the observed ring, the replica lists, who says `is_responsible`, and every sender's routing table.
+fn dyn_case(run: usize, rng: &mut impl Rng) -> Value {
+    IDK.with(|k| k.set([0u8, 0, 1, 2, 3, 4][rng.gen_range(0..6)]));
+    let vn = [1u32, 2, 3, 16, 150][rng.gen_range(0..5)];
+    let rf = rng.gen_range(1..=4usize);
+    let ks = keys(10, rng.gen_range(0..1000));
+    let mut pool: Vec<u64> = (1..=8).collect();
+    pool.shuffle(rng);
+    let n0 = rng.gen_range(1..=4usize);
+    let mut members: Vec<u64> = pool[..n0].to_vec();
+    let addr = |m: u64| format!("10.0.0.{m}:7000");
+    let shared = Arc::new(RwLock::new(HashRing::new(members.iter().map(|m| ReplicaId::new(real(*m))).collect(), vn, rf)));
+    let mk_router = |me: u64, members: &[u64]| {
+        let peers: HashMap<ReplicaId, String> = members.iter().filter(|m| **m != me).map(|m| (ReplicaId::new(real(*m)), addr(*m))).collect();
+        GossipRouter::new(shared.clone(), ReplicaId::new(real(me)), peers, true)
+    };
+    let mut routers: BTreeMap<u64, GossipRouter> = members.iter().map(|m| (*m, mk_router(*m, &members))).collect();
+    let deltas: Vec<_> = ks.iter().enumerate().map(|(i, k)| mk_delta(&json!({"id": i, "k": k, "t": "set", "v": "v", "ts": 1, "r": 1}))).collect();
+    let mut snaps: Vec<(Value, Vec<u64>, HashRing, Vec<Value>, Vec<Value>)> = Vec::new();     // (op, members, ring, keys-without-pos, routes)
+    let mut op = json!(["start", 0]);
+    for _ in 0..=rng.gen_range(2..=6usize) {
+        let ring = shared.read().unwrap().clone();
+        let kj: Vec<Value> = ks.iter().map(|k| {
+            let resp: Vec<u64> = (1..=8u64).filter(|m| ring.is_responsible(k, ReplicaId::new(real(*m)))).collect();
+            json!({"k": k, "def": ids(&ring.get_replicas(k)), "resp": resp, "primary": ring.get_primary(k).map(|p| logical(p.0)).unwrap_or(0)})
+        }).collect();
+        let routes: Vec<Value> = routers.iter().map(|(s, r)| json!({"sender": s, "new": table_json(&r.route_deltas(deltas.clone()))})).collect();
+        snaps.push((op.clone(), members.clone(), ring, kj, routes));
+        // next membership change
+        let join = members.len() <= 1 || (members.len() < 7 && rng.gen_bool(0.5));
+        if join {
+            let x = *pool.iter().find(|x| !members.contains(x)).unwrap();
+            shared.write().unwrap().add_node(ReplicaId::new(real(x)));
+            for r in routers.values_mut() {
+                r.update_peer(ReplicaId::new(real(x)), addr(x));
+            }
+            members.push(x);
+            let r = mk_router(x, &members);
+            routers.insert(x, r);
+            op = json!(["join", x]);
+        } else {
+            let x = members.remove(rng.gen_range(0..members.len()));
+            shared.write().unwrap().remove_node(ReplicaId::new(real(x)));
+            routers.remove(&x);
+            for r in routers.values_mut() {
+                r.remove_peer(ReplicaId::new(real(x)));
+            }
+            pool.retain(|y| *y != x);
+            pool.push(x);       // may rejoin later
+            op = json!(["leave", x]);
+        }
+    }
+    let rings: Vec<&HashRing> = snaps.iter().map(|s| &s.2).collect();
+    let (rj, kr) = ranked(&rings, &ks);
+    let epochs: Vec<Value> = snaps.iter().enumerate().map(|(i, (op, m, _, kj, routes))| {
+        let keys: Vec<Value> = kj.iter().zip(kr.iter()).map(|(k, pos)| { let mut k = k.clone(); k["pos"] = json!(pos); k }).collect();
+        json!({"op": op, "members": m, "ring_a": rj[i], "rf": rf, "keys": keys, "routes": routes})
+    }).collect();
+    json!({"t": "dyn", "run": run, "vnodes": vn, "rf": rf, "idmap": IDK.with(|k| k.get()), "epochs": epochs})
+}
+
 fn random_scn(rng: &mut impl Rng) -> Value {
     let n = rng.gen_range(1..=6u64);
     let contiguous = rng.gen_bool(0.6);
@@ -214,6 +278,15 @@ pub fn main(args: &[String]) -> i32 {
             for _ in 0..a.usize("n", 100) {
                 let s = random_scn(&mut rng);
                 emit(&s, &mut out);
+            }
+        }
+        Some("dyn") => {
+            let mut rng = rng(a.u64("seed", 1));
+            for i in 0..a.usize("n", 100) {
+                match catch(|| dyn_case(i + 1, &mut rng)) {
+                    Ok(v) => out.emit(&v),
+                    Err(p) => out.emit(&json!({"t": "dyn", "run": i + 1, "panic": p})),
+                }
             }
         }
         // placement of a fixed scenario computed in this process (used by `xproc` in child processes)
